@@ -445,7 +445,7 @@ func C20(x *Ctx, r *core.Result) {
 	pc := r.Rule("R20b+", "positive control: R20b must fire on /verif/selftest/remainder (2 offending allocations) and stay silent on the bounded key slice")
 	x.positiveControlRemainder(r, pc)
 
-	c := r.Rule("R20c", "stack growth: the slice appended at every push has exactly the missing number of slots (top+1-len(stack)), and the wrappers store the grown stack back into the Buffer")
+	c := r.Rule("R20c", "stack growth: the slice appended at every push has exactly the missing number of slots (top+1-len(stack)) — at most the nesting depth, hence at most the input length per call")
 	x.stackRules(r, c, true)
 	x.wrapperSymmetry(r, c, bufferWrappers...)
 	r.CheckFloor(c, 30)
